@@ -643,6 +643,19 @@ pub fn run_inproc(seed: u64, shard: u64, cases: u64) -> Report {
     for c in 0..cases {
         let mut rng = Rng::derive(seed, "c12-inproc", shard, c);
         let ctx = json!({"seed": seed, "shard": shard, "case": c, "engine": "c12-inproc"});
+        // now and then a value that cannot be serialised (never judged itself): whatever
+        // its failed serialisation leaves behind meets the judged cases that follow on
+        // this thread
+        if Rng::derive(seed, "c12-poison", shard, c).chance(1, 25) {
+            let v = Poison { a: format!("poison-{c}-{}", "x".repeat((c % 40) as usize)), b: c as u32 };
+            let r = vmon::panics::catch_quiet(std::panic::AssertUnwindSafe(move || HttpResponseOk(v).to_result().map(|r| r.status().as_u16())));
+            match r {
+                Err(p) => rep.violate("C12:to_result-panics:unserialisable-value", json!({"case": ctx, "location": p.location, "message": p.message})),
+                Ok(Ok(st)) => rep.count(&format!("unserialisable-value:to_result-ok-status-{st}"), 1),
+                Ok(Err(e)) => rep.count(&format!("unserialisable-value:to_result-err-status-{}", e.status_code.as_u16()), 1),
+            }
+            continue;
+        }
         match rng.below(10) {
             0 => inproc_nobody(&mut rep, &mut rng, ctx),
             1..=3 => inproc_redirect(&mut rep, &mut rng, ctx),
@@ -825,6 +838,13 @@ macro_rules! live_table {
 }
 const LIVE_TYPES: &[TypeEntry] = body_types!(live_table);
 
+/// answers with a value whose serialisation fails half-way (see types::Poison)
+async fn h_poison(rqctx: RequestContext<C>, q: Query<CaseQ>) -> Result<HttpResponseOk<Poison>, HttpError> {
+    enter(&rqctx);
+    let c = q.into_inner().case;
+    Ok(HttpResponseOk(Poison { a: format!("poison-{c}-{}", "x".repeat((c % 40) as usize)), b: c as u32 }))
+}
+
 pub fn build_api() -> Result<ApiDescription<C>, String> {
     let mut api = ApiDescription::new();
     for t in LIVE_TYPES {
@@ -852,6 +872,7 @@ pub fn build_api() -> Result<ApiDescription<C>, String> {
     r!(format!("/updated-no-content/{}", WRAPS[1]), updated_unnamed);
     r!(format!("/updated-no-content/{}", WRAPS[2]), updated_h1);
     r!(format!("/updated-no-content/{}", WRAPS[3]), updated_h3);
+    r!("/poison", h_poison);
     r!("/found", h_found);
     r!("/see-other", h_see_other);
     r!("/temporary-redirect", h_temporary);
@@ -933,6 +954,26 @@ pub fn live_client(rep: &mut Report, addr: std::net::SocketAddr, seed: u64, shar
                 ctx,
             )
         };
+        // now and then, first a request whose answer cannot be serialised (not judged)
+        if Rng::derive(seed, "c12-poison", shard, c).chance(1, 20) {
+            if conn.is_none() {
+                conn = Conn::connect(addr).ok();
+            }
+            if let Some(cn) = conn.as_mut() {
+                let pu = vmon::evlog::next_uid();
+                let sent = cn.send(&Req::new("GET", &format!("/c12/poison{q}")).uid(pu).encode());
+                match sent.ok().and_then(|_| cn.read_response(false).ok()) {
+                    Some(r) => {
+                        ran.push(pu);
+                        rep.count(&format!("unserialisable-value:answered-{}", r.status), 1);
+                        if r.wants_close() {
+                            conn = None;
+                        }
+                    }
+                    None => conn = None,
+                }
+            }
+        }
         let uid = vmon::evlog::next_uid();
         let req = Req::new("GET", &format!("{path}{q}")).uid(uid).encode();
         // (re)connect
